@@ -144,15 +144,18 @@ def gen_heapq(rnd, n):
     cases = []
     for _ in range(n):
         ops = []; size = 0
-        bias = rnd.choice([0.5, 0.65, 0.8]); prios = rnd.choice([[0], [0, 0, 0, 1], [-20, 0, 0, 5], list(range(-3, 4))])
+        bias = rnd.choice([0.5, 0.65, 0.8]); prios = rnd.choice([[0], [0, 0, 0, 1], [-20, 0, 0, 5], list(range(-3, 4)), [-2 ** 40, 0, 2 ** 33, 7]])
         for _ in range(rnd.randint(1, 60)):
             r = rnd.random()
             if r < bias or size == 0: ops.append(["put", rnd.choice(prios)]); size += 1
             elif r < bias + (1 - bias) * 0.6: ops.append(["get"]); size -= 1
-            else: ops.append(["get_top", rnd.choice(prios)])              # (size unknown afterwards: may or may not pop; tracked below)
-            if ops[-1][0] == "get_top": size = max(1, size)               # never let a later get block: refill
-            if size == 0 and rnd.random() < 0.5: ops.append(["put", rnd.choice(prios)]); size += 1
-        cases.append({"op": "heapq", "ops": ops})
+            else: ops.append(["get_top", rnd.choice(prios)]); size = max(0, size - 1)      # (may or may not pop: a later get on an empty queue is answered "empty" by both sides)
+        c = {"op": "heapq", "ops": ops}
+        # a queue that has already served many signals: the arrival counter is large (around powers of two, where a packed or truncated sort key would break)
+        if rnd.random() < 0.4: c["start"] = 2 ** rnd.randint(7, 70) - rnd.randint(0, 6)
+        # signal classes that compute their priority (override the public property; the base class's private field keeps its default)
+        if rnd.random() < 0.3: c["prio_property"] = True
+        cases.append(c)
     return cases
 
 
@@ -162,14 +165,20 @@ def run_heapq(case):
     from simpleline.event_loop.event_queue import EventQueue
     from simpleline.event_loop.signals import AbstractSignal
     class S(AbstractSignal): pass
+    class P(AbstractSignal):
+        def __init__(self, source, priority=0): AbstractSignal.__init__(self, source); self._vp = priority
+        priority = property(lambda self: self._vp)
     q = EventQueue(); out = []; n = 0; ids = {}
+    if case.get("start"):
+        if not isinstance(getattr(q, "_order_counter", None), int): return {"out": None, "unsupported": "the queue has no integer _order_counter to start from"}
+        q._order_counter = case["start"]
     def layout():
         # the heap array of the PriorityQueue, entry = (priority, arrival number); None when the implementation keeps its entries in another form
         try: return [[it.signal.priority, it.order] for it in q._queue.queue]
         except AttributeError: return None
     for o in case["ops"]:
         if o[0] == "put":
-            s = S(None, o[1]); ids[id(s)] = n; s._keep = ids; n += 1
+            s = (P if case.get("prio_property") and n % 2 == 0 else S)(None, o[1]); ids[id(s)] = n; s._keep = ids; n += 1
             q.enqueue(s); out.append({"r": None, "heap": layout()})
         elif q.empty(): out.append({"r": "empty", "heap": layout()})
         elif o[0] == "get":
@@ -182,6 +191,7 @@ def run_heapq(case):
 def monitor_heapq(case, obs):
     """C01 at the level of the queue object: most urgent first, first-in first-out within a priority; a refused partial take leaves the order untouched"""
     pending = []; n = 0
+    if obs["out"] is None: return None
     for o, r in zip(case["ops"], obs["out"]):
         if o[0] == "put": pending.append((o[1], n)); n += 1; continue
         if r["r"] == "empty":
@@ -201,6 +211,7 @@ def monitor_heapq(case, obs):
 
 def compare_obj(case, impl, model):
     if case["op"] == "heapq":
+        if impl["out"] is None: return "the implementation's queue cannot be started at a given arrival number: %s" % impl.get("unsupported")
         for k, (a, b) in enumerate(zip(impl["out"], model["out"])):
             if a["r"] != b["r"]: return "op #%d %r: implementation returned %r / model %r" % (k, case["ops"][k], a["r"], b["r"])
             if a["heap"] is not None and a["heap"] != b["heap"]:
@@ -236,7 +247,7 @@ def install(g, ops):
             return old(case, *a)
         g[name] = w
     wrap("run_impl", lambda c: json.loads(json.dumps(RUN[c["op"]](c))))
-    wrap("model_case", lambda c: {k: v for k, v in c.items() if k != "cc"})
+    wrap("model_case", lambda c: {k: v for k, v in c.items() if k not in ("cc", "prio_property")})
     wrap("compare", compare_obj)
     wrap("monitor", lambda c, o: MON[c["op"]](c, o))
     wrap("nontrivial", lambda c, o: len(c["ops"]) >= 3)
